@@ -67,6 +67,28 @@ def generate(tier, rng):
             tiers.append(t)
         cases.append({"op": "align", "tiers": tiers, "args": {"ref": rng.choice(tiers)["name"], "d": rng.randint(1, 3)},
                       "scale": list(rng.choice(gen.SCALES_DYADIC))})
+    # jitter of one ulp: times that differ from a reference time only in the last bit are within any positive
+    # maxDifference and must come out exactly on the reference time (grid of binary64 neighbours, maxDifference 0.05)
+    for _ in range(150 if tier == "quick" else 4000):
+        ref = gen.random_itier(rng, name="ref", tmax=30, maxn=4) if rng.random() < 0.6 else gen.random_ptier(rng, name="ref", tmax=30, maxn=4)
+        for e in ref["entries"]:
+            for k in range(len(e) - 1):
+                e[k] = 2 * e[k]
+        ref["min"], ref["max"] = 0, 60
+        rt = sorted(set(x for e in ref["entries"] for x in e[:-1]))
+        tiers = [ref]
+        for j in range(rng.randint(1, 2)):
+            if rng.random() < 0.5 and len(rt) >= 2:
+                ks = sorted(rng.sample(rt, 2 * (len(rt) // 2)))
+                ents = [[ks[i] + rng.choice([0, 1]), ks[i + 1] + rng.choice([0, 1]), "l%d" % i] for i in range(0, len(ks), 2)]
+                ents = [e for e in ents if e[0] < e[1]]
+                t = {"kind": "I", "name": "i%d" % j, "entries": ents, "min": 0, "max": 60}
+            else:
+                ents = [[x + rng.choice([0, 1, 1]), "m"] for x in rt]
+                t = {"kind": "P", "name": "p%d" % j, "entries": ents, "min": 0, "max": 60}
+            tiers.append(t)
+        rng.shuffle(tiers)
+        cases.append({"op": "align", "tiers": tiers, "args": {"ref": "ref", "d": 0, "dfloat": 0.05}, "scale": ["near", 1]})
     return cases
 
 
@@ -103,7 +125,7 @@ def run(case):
             tg.addTier(x, reportingMode="silence")
         refname = case["args"]["ref"]
         ref = tg.getTier(refname)
-        d = sc.f(case["args"]["d"])
+        d = case["args"].get("dfloat") or sc.f(case["args"]["d"])
         per = []
         for x in built:
             if x.name == refname:
@@ -167,6 +189,16 @@ def py_checks(case, r):
     fails = []
     if v["names"] != [t["name"] for t in case["tiers"]]:
         fails.append("tier names/order changed")
+    if case["scale"][0] == "near":
+        # independent expectation: every time one ulp off a reference time lands exactly on it
+        ref = [t for t in case["tiers"] if t["name"] == case["args"]["ref"]][0]
+        rt = set(x for e in ref["entries"] for x in e[:-1])
+        for t, got in zip(case["tiers"], v["tiers"]):
+            if t["name"] == case["args"]["ref"]:
+                continue
+            want = [[(x - 1 if (x % 2 and (x - 1) in rt) else x) for x in e[:-1]] + [e[-1]] for e in t["entries"]]
+            if got["entries"] != want:
+                fails.append("tier %s: times one ulp off a reference time were not moved onto it: %r, expected %r" % (t["name"], got["entries"][:3], want[:3]))
     for nm, got, exp in zip(v["names"], v["tiers"], v["per_tier"]):
         if "ok" not in exp:
             fails.append("tier %s: dejitter alone raises %s but align returned" % (nm, exp))
